@@ -93,22 +93,23 @@ Definition y0_rho (nodelist : list node) (rho : Q) : vec := map (fun _ => rho) n
 Definition y0_set (nodelist I0 : list node) : vec := map (fun u => if mem u I0 then 1 else 0) nodelist.
 Definition x0_of (Y0 : vec) : vec := map (fun y => 1 - y) Y0.
 Definition ib_SIS_V0 (Y0 : vec) : vec := Y0.
-Definition ib_SIR_V0 (Y0 : vec) : vec := x0_of Y0 ++ Y0.
-(* SIS_pair_based: X0 = 1 - Y0; XY0 = X0[:,None]*Y0[None,:]*A; XX0 = X0[:,None]*X0[None,:]*A with A the
-   adjacency matrix in nodelist order; V0 = Y0 ++ XY0 ++ XX0.  SIR_pair_based builds the same arrays from
-   its edge list and prepends X0 *)
+Definition ib_SIR_V0 (X0 Y0 : vec) : vec := X0 ++ Y0.
+(* SIS_pair_based: X0 = 1 - Y0; XY0 = X0[:,None]*Y0[None,:]*A; XX0 = X0[:,None]*X0[None,:]*A with A =
+   nx.adjacency_matrix(G, nodelist, weight=None) (in nodelist order); V0 = Y0 ++ XY0 ++ XX0.
+   SIR_pair_based: the same arrays from X0 (default 1 - Y0), V0 = X0 ++ Y0 ++ XY0 ++ XX0 *)
 Definition pair0 (G : graph) (nodelist : list node) (A B : vec) : vec :=
   tab2 (nN nodelist) (nN nodelist) (fun i j => if is_edge G nodelist i j then vnth i A * vnth j B else 0).
 Definition pb_SIS_V0 (G : graph) (nodelist : list node) (Y0 : vec) : vec :=
   Y0 ++ pair0 G nodelist (x0_of Y0) Y0 ++ pair0 G nodelist (x0_of Y0) (x0_of Y0).
-Definition pb_SIR_V0 (G : graph) (nodelist : list node) (Y0 : vec) : vec :=
-  x0_of Y0 ++ Y0 ++ pair0 G nodelist (x0_of Y0) Y0 ++ pair0 G nodelist (x0_of Y0) (x0_of Y0).
-Definition node_V0 (sys : nat) (G : graph) (nodelist : list node) (Y0 : vec) : vec :=
+Definition pb_SIR_V0 (G : graph) (nodelist : list node) (X0 Y0 : vec) : vec :=
+  X0 ++ Y0 ++ pair0 G nodelist X0 Y0 ++ pair0 G nodelist X0 X0.
+(* X0 is used by the SIR systems only *)
+Definition node_V0 (sys : nat) (G : graph) (nodelist : list node) (X0 Y0 : vec) : vec :=
   match sys with
   | 0%nat => ib_SIS_V0 Y0
-  | 1%nat => ib_SIR_V0 Y0
+  | 1%nat => ib_SIR_V0 X0 Y0
   | 2%nat => pb_SIS_V0 G nodelist Y0
-  | 3%nat => pb_SIR_V0 G nodelist Y0
+  | 3%nat => pb_SIR_V0 G nodelist X0 Y0
   | _ => []
   end.
 
